@@ -2231,4 +2231,30 @@ func (x *extractor) factsStream() {
 		cp = "copy(p, m.Data)"
 	}
 	x.set("stream_readfrom_copy", cp)
+	// what quic-go gets as its PacketConn, and which send error that adapter turns into datagram loss
+	ad := "unknown"
+	if f := x.file(cn); f != nil {
+		n := 0
+		ast.Inspect(f, func(m ast.Node) bool {
+			if kv, ok := m.(*ast.KeyValueExpr); ok && x.str(kv.Key) == "Conn" {
+				if x.str(kv.Value) == "quicPacketConn{pc}" {
+					n++
+				} else if x.str(kv.Value) == "pc" {
+					n = -100
+				}
+			}
+			return true
+		})
+		swallow := ""
+		if fd := x.fn(cn, "quicPacketConn", "WriteTo"); fd != nil {
+			ast.Inspect(fd.Body, func(m ast.Node) bool {
+				if is, ok := m.(*ast.IfStmt); ok && strings.Contains(x.str(is.Body), "return len(p), nil") {
+					swallow = x.str(is.Cond)
+				}
+				return true
+			})
+		}
+		ad = fmt.Sprintf("transports:%d;lost-not-fatal:%s", n, swallow)
+	}
+	x.set("stream_quic_adapter", ad)
 }
